@@ -11,7 +11,7 @@ class ExecHandler(Virtual):
     def canhandlerequest(self):
         # We ONLY handle requests from the real filesystem.
         return (
-            isinstance(self.vfs, VFS_Real)
+            type(self.vfs) is VFS_Real
             and self.statresult
             and stat.S_ISREG(self.statresult[stat.ST_MODE])
             and (stat.S_IMODE(self.statresult[stat.ST_MODE]) & stat.S_IXOTH)
